@@ -1053,6 +1053,21 @@ func (c *c14Case) oracle(i int, o *vu.Out) {
 			want[ck] = append(want[ck], kv.vv...)
 		}
 	}
+	if c.cfg.gz == 1 && wantMethod != "HEAD" {
+		// httpcommon.IsRequestGzip: exact-key lookups
+		hasAE, hasRange := false, false
+		for _, kv := range rq.hdr {
+			if kv.k == "Accept-Encoding" && len(kv.vv) > 0 {
+				hasAE = true
+			}
+			if kv.k == "Range" && len(kv.vv) > 0 {
+				hasRange = true
+			}
+		}
+		if !hasAE && !hasRange && len(want["Accept-Encoding"]) > 0 {
+			want["Accept-Encoding"] = append(want["Accept-Encoding"], "gzip")
+		}
+	}
 	got := map[string][]string{}
 	for k, vv := range sq.header {
 		if k == "Cookie" {
